@@ -94,20 +94,30 @@ class Yielder(ast.NodeTransformer):
     """Insert `yield <lineno>` before every statement that is not inside `with <lock>`: turns a thread body into a
     cooperative generator whose pre-emption points are statement boundaries outside critical sections."""
 
-    def __init__(self, lock_names):
+    def __init__(self, lock_names, spin=False):
         self.lock_names = set(lock_names)
         self.in_lock = 0
+        self.spin = spin
 
     def _body(self, stmts):
         out = []
         for s in stmts:
             if self.in_lock == 0:
                 out.append(ast.Expr(ast.Yield(ast.Constant(getattr(s, 'lineno', 0)))))
+                if self.spin and isinstance(s, ast.With):
+                    for i in s.items:
+                        if self._is_lock(i.context_expr):
+                            # while <lock>.held: yield 'blocked'   (then acquire atomically)
+                            out.append(ast.While(ast.Attribute(i.context_expr, 'held', ast.Load()),
+                                                 [ast.Expr(ast.Yield(ast.Constant('blocked')))], []))
             out.append(self.visit(s))
         return out
 
+    def _is_lock(self, e):
+        return (isinstance(e, ast.Name) and e.id in self.lock_names) or (isinstance(e, ast.Attribute) and e.attr in self.lock_names)
+
     def visit_With(self, node):
-        locked = any(isinstance(i.context_expr, ast.Name) and i.context_expr.id in self.lock_names for i in node.items)
+        locked = any(self._is_lock(i.context_expr) for i in node.items)
         if locked:
             self.in_lock += 1
         node.body = self._body(node.body)
